@@ -1919,8 +1919,9 @@ class C08(HistProp):
                 "starts with an insertion or recompute and goes on with any sequence of successful insertions of such records, recomputes, "
                 "set_tid, set_rcode, set_opcode, set_response(true) and set_flags with QR ends with accepted bytes that are a fixed point of "
                 "decompression, the not-compressed flag, and every offset and EDNS field equal to a fresh parse; (v) the same for histories "
-                "that also delete non-OPT records and set their TTLs and owner names through a cursor placed with set_offset + recompute "
-                "(C08_histories_with_cursor, every step applicable where applied); plus frame/shape lemmas "
+                "that also delete non-OPT records and set their TTLs, addresses and owner names through a cursor placed with set_offset + recompute "
+                "(C08_histories_with_cursor, every step applicable where applied), and every such history runs to the end with no Panic outcome, "
+                "a step that reports an error changing nothing (C08_histories_with_cursor_total); plus frame/shape lemmas "
                 "(C08_insert_shape, C08_header_setters_keep_view); with failing steps tolerated every such history runs to the end without a "
                 "Panic outcome (C08_histories_total). Operations that move the cursor (TTL / address / name setters, deletion, "
                 "cursor decompression), insertion of OPT records or of a question, and histories on synthesised objects are decided each run "
@@ -1975,7 +1976,9 @@ class C09(HistProp):
                 "ones with exactly that record removed, only that section's count is lowered, the flag word stays "
                 "(C09_delete_on_decompressed). The owner-name setter from any such state, any byte string as the name: a successful "
                 "set_raw_name replaces exactly that record's owner labels by the labels the checker accepted (growing, shrinking or equal "
-                "length), every other record, the counts and the flag word stay, the invariant is kept (C09_set_name_on_decompressed). Further lemmas: C09_insert_appends (bytes after a successful insert = bytes before with the record spliced at the "
+                "length), every other record, the counts and the flag word stay, the invariant is kept (C09_set_name_on_decompressed). The "
+                "address setter from any such state: success means an A record given 4 bytes or an AAAA record given 16, and exactly that "
+                "record's data is replaced (C09_set_ip_on_decompressed). Further lemmas: C09_insert_appends (bytes after a successful insert = bytes before with the record spliced at the "
                 "end of the section, one count incremented), C09_set_ttl_frame (only 4 bytes change), C09_set_ttl_effect (on a section that reads "
                 "declaratively as records l, after set_rr_ttl t on the k-th cursor the section walk returns the views of l with the k-th TTL "
                 "replaced by t and nothing else changed, PROVIDED no owner name of the section is read through the 4 bytes written; "
@@ -2014,8 +2017,12 @@ class C10(HistProp):
                 "accepted and reading as the same message; cursor untouched), which satisfies the C08 invariant "
                 "(C10_failed_insert_keeps_invariant); from any state satisfying that invariant a failing insert_rr changes nothing at all "
                 "(C10_failed_insert_changes_nothing) and histories over insert_rr / recompute / the header setters with failing steps "
-                "tolerated run to the end without a Panic outcome and keep the invariant (C08_histories_total). Atomicity of the other "
-                "failing operations (names, deleted cursors, text, rename) is decided each run by the correspondence and the before/after oracle.")
+                "tolerated run to the end without a Panic outcome and keep the invariant (C08_histories_total). From any such state, cursor on "
+                "a non-OPT record of a record section: set_raw_name and set_rr_ip either succeed or report an error with object and cursor "
+                "exactly as they were (C10_failed_set_name_changes_nothing, C10_failed_set_ip_changes_nothing), delete and set_rr_ttl cannot "
+                "fail (C10_delete_succeeds, C10_set_ttl_succeeds), none has a Panic outcome; histories that include them run to the end "
+                "(C08_histories_with_cursor_total). Atomicity of the other failing operations (the question, text, whole-packet rename, "
+                "operations that start on a compressed object) is decided each run by the correspondence and the before/after oracle.")
 
     def gen(self, rng, tier):
         n = 400 if tier == "quick" else 10000
@@ -2095,7 +2102,8 @@ class C11(HistProp):
                 "on a decompressed object: from any state satisfying the C08 invariant a successful delete through a cursor on a non-OPT "
                 "record of any record section removes exactly that record, leaves the cursor void and keeps the invariant "
                 "(C11_delete_removes_the_record_under_the_cursor), section offsets are where the first remaining record starts and an emptied "
-                "section is absent (C11_section_offsets), a second delete reports a void record and changes nothing (C11_second_delete_void). "
+                "section is absent (C11_section_offsets), a second delete reports a void record and changes nothing (C11_second_delete_void), "
+                "the delete itself cannot fail (C11_delete_succeeds). "
                 "PARTIAL: that the walk of the concrete cursor code (next / restart after a delete, compressed packets, the question "
                 "section) refines the abstract machine is decided each run by the correspondence over all subsets of small sections.")
 
